@@ -498,6 +498,8 @@ def parse_instr(mod, ln):
     if op == 'resume': return Instr(op, None, None, [], None, L)
     if op == 'freeze':
         t = p.ptype(); a = p.pvalue(t); return Instr('freeze', dst, t, [a], None, L)
+    if op in ('cmpxchg', 'atomicrmw', 'fence', 'va_arg', 'indirectbr', 'callbr', 'cleanupret', 'catchret', 'catchswitch', 'catchpad', 'cleanuppad', 'shufflevector', 'extractelement', 'insertelement'):
+        return Instr('unsupported:' + op, dst, None, [], None, L)
     raise Exception(f'instr? {op}: {L[:120]}')
 
 _orig_parse_instr = parse_instr
